@@ -79,6 +79,39 @@ def numpy_to_blackbird(A, var_name):
             row_str = "    " + ", ".join(["{}".format(n) for n in row])
             script.append(row_str)
 
+    elif A.dtype == object and any(isinstance(n, sym.Symbol) for n in A.flatten()):
+        # array containing free parameters (a template array); the numeric
+        # elements have the declared element type, which is written back
+        elements = list(A.flatten())
+        numeric = [n for n in elements if not isinstance(n, sym.Basic)]
+        if any(isinstance(n, sym.Basic) and not isinstance(n, sym.Symbol) for n in elements):
+            raise ValueError("Array {} contains symbolic expressions other than free parameters".format(A))
+
+        if any(isinstance(n, (complex, np.complexfloating)) for n in numeric):
+            var_type = "complex"
+        elif numeric and all(isinstance(n, (int, np.integer)) for n in numeric):
+            var_type = "int"
+        else:
+            var_type = "float"
+
+        script = ["{} array {}[{}, {}] =".format(var_type, var_name, *A.shape)]
+
+        names = [str(n) for n in elements]
+        base = names[0].rsplit("_", 2)[0]
+        expanded = ["{}_{}_{}".format(base, i, j) for i, j in np.ndindex(A.shape)]
+        if names == expanded:
+            # the array is a single array-valued parameter
+            script.append("    {" + base + "}")
+        elif A.size == 1:
+            # a lone parameter would be read back as an array-valued parameter
+            raise ValueError("Array {} of a single free parameter cannot be declared".format(A))
+        else:
+            for row in A:
+                row_str = "    " + ", ".join(
+                    "{" + str(n) + "}" if isinstance(n, sym.Symbol) else _format_value(n) for n in row
+                )
+                script.append(row_str)
+
     else:
         # unknown array type
         raise ValueError("Array {} is of unsupported type {}".format(A, A.dtype))
@@ -466,6 +499,11 @@ class BlackbirdProgram:
             inv_type_map = {np.dtype(v).kind: k for k, v in NUMPY_TYPES.items()}
 
             for k, v in self._var.items():
+                if isinstance(v, np.ndarray) and v.dtype == object:
+                    # template array
+                    script.extend(numpy_to_blackbird(v, k)[:-1])
+                    continue
+
                 var_type = inv_type_map[np.array(v).dtype.kind]
                 array_string = ""
                 if isinstance(v, Iterable) and not isinstance(v, str):
